@@ -239,7 +239,7 @@ Proof.
       exists (length got + n)%nat.
       split; [lia|]. split; [rewrite Hr, my_skipn_skipn; reflexivity|]. split; [lia|].
       intros bs Hx. apply Hbs in Hx. destruct Hx as [-> Hlen]. split.
-      * rewrite <- app_assoc. f_equal. rewrite my_firstn_add. f_equal. symmetry. exact Eg.
+      * rewrite <- app_assoc. f_equal. rewrite my_firstn_add. f_equal. exact Eg.
       * rewrite Hlen. rewrite app_length. lia.
     + inversion H; subst. split; [discriminate|]. exists (length got). cbn [rdata].
       assert (length got <= length d)%nat by (rewrite Eg, firstn_length; lia).
